@@ -14,6 +14,8 @@ CONSTANTS
   SweepOnly = FALSE
   SweepA <- FineSweepAs
   SweepB <- FineSweepBs
+  SweepKinds <- AllSweeps
+  ValuePos <- AllPos
   Sim = TRUE
 INIT Init
 NEXT Next
